@@ -70,15 +70,16 @@ PROPERTIES = {
         "level": "fault_enumeration",
         "classes": ["FAULT_NOT_NULL", "LEAK_ON_FAILURE", "LEAK_AT_QUIESCENCE", "UNEXPECTED_NULL", "DIGEST_MISMATCH", "BAD_MUNMAP", "DOUBLE_MUNMAP", "BAD_FREE", "DOUBLE_FREE", "HEAP_OVERRUN"] + CRASH,
         "rule": "enumeration: for every creating call x flag set, the k-th allocation request fails for every k (and k together with k+1), followed by the same call without a fault and a hash on the result; "
+                "the enum-cold batches run every enumeration item in a process of its own, cold (no warm-up, no earlier library call): the failing call is then the first of its kind the process makes, one-time initialisations included; "
                 "seeded: histories with faults attached to creating calls among other live objects; a case is one history; distinct_nontrivial counts distinct history shapes",
         "assumptions": ["allocation requests = operator new, posix_memalign (_mm_malloc), mmap, mmap(MAP_HUGETLB) issued inside the call; malloc inside libstdc++'s exception allocation is not a request",
                         "allocation faults are injected in the three creating calls only (what C15 is about); mprotect/munmap failures are not injected here", "leak check: library-scope live blocks and mapped bytes, exact, around failed calls and at quiescence of every run"],
         "expected_probes": ["creating_call_failed_cleanly"],
         "exhaustive": {"quick": True, "thorough": True},
         "tiers": {
-            "quick": [B("enum-small-a", "plain", "small-a", 100000, 40, mode="enum"), B("seeded-small-a", "plain", "small-a", 4000, 30), B("enum-shipped", "plain", "shipped", 100000, 60, workers=8, mode="enum", gate=2),
+            "quick": [B("enum-small-a", "plain", "small-a", 100000, 40, mode="enum"), B("enum-cold-small-a", "plain", "small-a", 100000, 20, mode="enum-cold"), B("seeded-small-a", "plain", "small-a", 4000, 30), B("enum-shipped", "plain", "shipped", 100000, 60, workers=8, mode="enum", gate=2),
                       B("seeded-shipped", "plain", "shipped", 24, 25, workers=8, gate=2)],
-            "thorough": [B("enum-small-a", "plain", "small-a", 100000, 300, mode="enum"), B("enum-small-b", "plain", "small-b", 100000, 300, mode="enum"), B("seeded-small-a", "plain", "small-a", 100000, 300),
+            "thorough": [B("enum-small-a", "plain", "small-a", 100000, 300, mode="enum"), B("enum-small-b", "plain", "small-b", 100000, 300, mode="enum"), B("enum-cold-small-a", "plain", "small-a", 100000, 120, mode="enum-cold"), B("enum-cold-small-b", "plain", "small-b", 100000, 120, mode="enum-cold"), B("seeded-small-a", "plain", "small-a", 100000, 300),
                          B("enum-shipped", "plain", "shipped", 100000, 600, workers=8, mode="enum", gate=8), B("seeded-shipped", "plain", "shipped", 600, 300, workers=8, gate=8), B("contract-audit", "assert", "small-a", 3000, 40)],
         },
     },
